@@ -8,6 +8,7 @@ INVARIANT WdtRoundTrip
 INVARIANT WdtLossIsOnlyMwmo
 INVARIANT MaofPointsAtMare
 INVARIANT WdlRoundTrip
+INVARIANT WdlDeviationLoss
 INVARIANT WdtConvertLaw
 INVARIANT WdlConvertLaw
 CHECK_DEADLOCK FALSE
